@@ -60,12 +60,13 @@ Definition rev_perm : perm := fun l => rev l.
 Definition old_loop_order_dependent (op tp : list (str * gparam)) : bool :=
   Nat.leb 2 (List.length (diff_keys op tp)).
 
-(* ---- the one way the emitted TEXT still varies between processes ----
-   _infer_default leaves a raw ast node as the default when the declared type is str-like and the
-   default is not a constant (C07 class str-typed-code-default-left-as-node); emitters format it with
-   "{}".format(node), which prints the object's address.  The model carries the node as structure (DE e),
-   so the IR it computes is the same in every run; the address is below the model.  Recorded as a class
-   so that the oracle's failures are attributed. *)
+(* ---- the ways the emitted TEXT still varies between processes ----
+   A raw ast node left as a default is formatted by the emitters with "{}".format(node), which prints the
+   object's address.  After fix 14f8a19 _infer_default no longer leaves one under a str-like type; the
+   remaining source is a non-** parameter whose name ends in "kwargs": _set_name_and_type takes its
+   kwargs branch and never calls _infer_default (C07 class non-star-parameter-named-kwargs).  The model
+   carries the node as structure (DE e), so the IR it computes is the same in every run; the address is
+   below the model.  Recorded as a class so that the oracle's failures are attributed. *)
 Definition gparam_has_node (p : gparam) : bool :=
   match g_default p with Some (DE _) => true | _ => false end.
 
@@ -73,13 +74,31 @@ Definition ir_has_node_default (r : ir) : bool :=
   existsb (fun kv => gparam_has_node (snd kv)) (ir_params r)
   || match ir_returns r with Has p => gparam_has_node p | _ => false end.
 
-Inductive c12_class : Type := K12_node_default.
+(* a second leak, in the argparse emitter (not modelled here): a back-tick quoted one-element list default
+   such as [a + b] or [*a] is re-parsed by _parse_default_from_ast, which takes get_value(elts[0]) - a raw
+   node for anything but a constant or a name - as the argparse default.  Over-approximated on the IR:
+   some default is back-tick quoted source of a list display. *)
+Definition gparam_has_list_code (p : gparam) : bool :=
+  match g_default p with
+  | Some (DV (VStr s)) => code_quoted s && startswith (L "```[") s
+  | _ => false
+  end.
+
+Definition ir_has_list_code_default (r : ir) : bool :=
+  existsb (fun kv => gparam_has_list_code (snd kv)) (ir_params r).
+
+Inductive c12_class : Type := K12_node_default | K12_list_code_default.
 
 Definition c12_class_name (k : c12_class) : str :=
-  match k with K12_node_default => L "raw-ast-node-default-printed-with-its-address" end.
+  match k with
+  | K12_node_default => L "raw-ast-node-default-printed-with-its-address"
+  | K12_list_code_default => L "quoted-list-default-expanded-to-raw-node-by-argparse-emitter"
+  end.
 
 Definition finding_class_C12_ir (r : ir) : option c12_class :=
-  if ir_has_node_default r then Some K12_node_default else None.
+  if ir_has_node_default r then Some K12_node_default
+  else if ir_has_list_code_default r then Some K12_list_code_default
+  else None.
 
 Definition finding_class_C12 (d : option ir) (fd : stmt) : option c12_class :=
   match parse_function id_perm id_perm d fd false true None None with
@@ -99,7 +118,12 @@ Definition run_c12 (fn : sexp) (args : list sexp) : option sexp :=
     match args with
     | [d; s] =>
       match dec_option dec_ir d, dec_stmt s with
-      | Some d, Some fd => Some (enc_option (fun k => enc_str (c12_class_name k)) (finding_class_C12 d fd))
+      | Some d, Some fd =>
+        Some (match parse_function id_perm id_perm d fd false true None None with
+              | Ok r => enc_option (fun k => enc_str (c12_class_name k)) (finding_class_C12_ir r)
+              | Err Unmodelled => sym "unmodelled"
+              | Err _ => sym "raises"
+              end)
       | _, _ => None
       end
     | _ => None
